@@ -3,9 +3,9 @@ MIR_NOTE = ('Bounded symbolic execution, not a proof. Trusted: rustc nightly MIR
             'the OpenMLS/storage environment contracts listed in the evidence, z3. Callee results are nondeterministic; loops and symbolic lists are '
             'unrolled to the stated bounds with an unwinding check (a path hitting the bound makes the check BROKEN, not passing).')
 ENGINES = [
-    dict(name='sqlsym', path='/verif/sqlsym', serves_properties=['C06', 'C08', 'C09', 'C10', 'C12', 'C16', 'C17', 'C18', 'C20'],
+    dict(name='sqlsym', path='/verif/sqlsym', serves_properties=['C01', 'C02', 'C04', 'C06', 'C07', 'C08', 'C09', 'C10', 'C11', 'C12', 'C16', 'C17', 'C18', 'C20'],
          kind_free_text='E4: SQL programs of the SQLite backend (extracted from the sources with the schema of migrations/*.sql) as relational SMT over symbolic rows, decided by z3'),
-    dict(name='mirsym', path='/verif/mirsym', serves_properties=['C01', 'C02', 'C04', 'C05', 'C06', 'C07', 'C08', 'C09', 'C10', 'C11', 'C15', 'C16', 'C17', 'C18', 'C20'],
+    dict(name='mirsym', path='/verif/mirsym', serves_properties=['C01', 'C02', 'C04', 'C05', 'C06', 'C07', 'C08', 'C09', 'C10', 'C11', 'C12', 'C15', 'C16', 'C17', 'C18', 'C20'],
          kind_free_text='E3/E3c: symbolic execution (z3) of the textual MIR of the repository crates, regenerated from the working tree on every run'),
     dict(name='kani-direct', path='/verif/kani/direct', serves_properties=['C18', 'C15'],
          kind_free_text='E1: Kani 0.68 / CBMC 6.11 harnesses (kani::any inputs, unwind bounds, cover! vacuity witnesses) over the compiled real code'),
@@ -18,7 +18,8 @@ CHECKS = [
          technique='symbolic execution of the compiler MIR with z3: panic-freedom of every parser of untrusted bytes over symbolic buffers (lengths as symbolic variables), effect-freedom of refusing paths by trace assertions',
          text='Every path of the parsers of untrusted input (extension TLV readers, tag/imeta parsers, snapshot-name and ciphersuite/extension tag validators, content decoders; list in the evidence) is explored with '
               'symbolic lengths and contents and z3 shows no panic (index, slice, split_at, arithmetic overflow, unwrap) is reachable; every refusing path of process_message is shown to perform no '
-              'state-changing call except the failure record; the memory pagination arithmetic cannot overflow; refused welcomes leave no state (shared with C16).',
+              'state-changing call except the failure record; the memory pagination arithmetic cannot overflow; refused welcomes leave no state (shared with C16); a refused memory save_group is effect-free. '
+              'O6/O7 (no input-dependent storage refusal after an earlier effect of process_welcome / process_commit) fail on the current tree: 10 known findings with native replays.',
          note=MIR_NOTE + ' Bounds: lists/tags <= 3 elements, slices modelled with symbolic length and may-panic index models. Not covered: panics inside OpenMLS / nostr / serde (library code is an uninterpreted call), allocation failure, stack exhaustion.'),
     dict(id='C15', engine='mirsym', design_ref='DESIGN.md section 5, C15',
          technique='symbolic execution of the compiler MIR with z3 and codec contract models (serialise/deserialise as inverse uninterpreted pairs); Kani/CBMC round trip of the raw extension in the thorough tier',
@@ -36,7 +37,8 @@ CHECKS = [
     dict(id='C10', engine='sqlsym', design_ref='DESIGN.md section 5, C10',
          technique='SMT equivalence (z3) between SQL extracted from the SQLite backend (ORDER BY, LIMIT/OFFSET parameter casts, WHERE predicates) and the reference model of the storage contract, for all 64-bit values',
          text='z3 shows, for all rows and parameters, that the ORDER BY clauses equal the documented total orders, that LIMIT/OFFSET with the Rust-side casts equals slice pagination for every limit '
-              'and usize offset, that the invalidation / retry / pending-welcome predicates select exactly the contract\'s records (NULL epochs included), and cross-checks upsert column coverage against the migrations.',
+              'and usize offset, that the invalidation / retry / pending-welcome predicates select exactly the contract\'s records (NULL epochs included), that every DO UPDATE SET yields the new value, '
+              'and that the Rust-side parameter conversions of the save_* methods are lossless (bit-vector models of the casts composed with rusqlite ToSql/FromSql); the memory-side kernels are symbolic executions of the real mdk-memory-storage MIR.',
          note='Partial: the places where the two backends implement the same function twice. Timestamps < 2^63 (above that rusqlite refuses the value). Column coverage is a catalogue cross-check. '
               'A differential run over arbitrary operation sequences needs the real SQLite engine and is not claimed. Memory-side kernels (listing/pagination, invalidation, rollback with routing index: O5-O7) are mirsym obligations over the real mdk-memory-storage MIR with <= 2 records.'),
     dict(id='C11', engine='mirsym', design_ref='DESIGN.md section 5, C11',
@@ -58,11 +60,11 @@ CHECKS = [
          note='Bounded: 2 candidate rows per table, target group vs other, target snapshot name vs other. Assumes the group existed at snapshot time and SQLite enforces the declared '
               'foreign keys. Column-level fidelity is a catalogue cross-check, not a solver query. The memory backend half (O4) drives the real snapshot/rollback MIR of mdk-memory-storage over container models (<= 2 groups, <= 2 records per map).'),
     dict(id='C12', engine='sqlsym', design_ref='DESIGN.md section 5, C12',
-         technique='SMT (z3) over the extracted SQL statement lists with a symbolic crash index and SQLite transaction/savepoint semantics',
+         technique='SMT (z3) over the extracted SQL statement lists with a symbolic crash index and SQLite transaction/savepoint semantics; symbolic execution of the MIR of merge_pending_commit for the retry clause',
          text='For snapshot creation, rollback and relay replacement z3 shows that for every crash point (symbolic statement index) the persisted effects are all or none, i.e. every '
               'state-changing statement lies inside the BEGIN..COMMIT / SAVEPOINT..RELEASE bracket, and that the error path rolls back.',
-         note='One clause of C12 only. Trusted: SQLite atomic commit. The main clause (re-processing the interrupted event converges) spans OpenMLS writes and ~80 auto-committed '
-              'statements and is NOT covered.'),
+         note='Partial. Trusted: SQLite atomic commit. O2 (mirsym over the MIR) covers one instance of the main clause: the retry of merge_pending_commit after a crash between the OpenMLS merge '
+              'and the record update re-synchronises the stored record. The main clause in general (re-processing any interrupted event converges) spans OpenMLS writes and ~80 auto-committed statements and is NOT covered.'),
     dict(id='C01', engine='mirsym', design_ref='DESIGN.md section 5, C01',
          technique='symbolic execution of the compiler MIR with z3: call-graph-derived function set, per-path ordering and dataflow assertions; native replay of findings',
          text='On every path of every mdk-core function that can merge a commit (set recomputed from the MIR call graph) z3-guarded exploration shows a snapshot of the pre-merge epoch, '
@@ -83,7 +85,7 @@ CHECKS = [
          technique='symbolic execution of the compiler MIR with z3: write-freedom of dedup/refusal paths, dominance of the active-group guard; native replay on real OpenMLS groups',
          text='Every path of process_welcome / preview_welcome / accept_welcome / decline_welcome is enumerated: dedup and refusal paths are write-free (except the failed-welcome record), '
               'only Pending is written before consent, Active only after into_group succeeded, and the pending record is never written over a group the user is active in '
-              '(z3 proves the guarding lookup excludes Active on every saving path).',
+              '(z3 proves the guarding lookup excludes Active on every saving path). O6 (an invitation the store refuses on input grounds leaves nothing behind) fails on the current tree: 3 known findings with native replays.',
          note=MIR_NOTE + ' Not covered: that the joined state equals the inviter\'s post-commit state (OpenMLS).'),
     dict(id='C02', engine='mirsym', design_ref='DESIGN.md section 5, C02',
          technique='symbolic execution of the compiler MIR with z3: bit-vector window arithmetic, path enumeration with per-path assertions',
@@ -101,7 +103,8 @@ CHECKS = [
          technique='symbolic execution of the compiler MIR with z3 (path enumeration + per-path assertions), uninterpreted environment calls',
          text='Every feasible path of validate_commit_authorization, is_pure_self_update_commit (proposal lists up to 3/4, all proposal kinds and senders symbolic), '
               'process_commit, process_proposal, the identity validators and the sender-side admin gates is enumerated by z3-guarded symbolic execution of the MIR; '
-              'the authorisation truth table, whitelist, validate-before-snapshot-before-merge order, proposal handling and identity checks are asserted on each.',
+              'the authorisation truth table, whitelist, validate-before-snapshot-before-merge order, proposal handling and identity checks are asserted on each. O7 (sender-side operations must not '
+              'commit roster changes merely proposed by others) fails on the current tree and is listed as a known finding (five call sites) with a native replay.',
          note=MIR_NOTE + ' Not covered: what OpenMLS sweeps into a commit from its pending-proposal queue; MLS-level authentication of the sender.'),
     dict(id='C18', engine='kani-direct', design_ref='DESIGN.md section 5, C18',
          technique='bounded model checking (Kani/CBMC) of the real comparators and pointer update over symbolic keys',
